@@ -63,6 +63,17 @@ def spec_persistent(t):
 
 def harness_classify(which):
     def h(ex):
+        try:
+            return h2(ex)
+        except TypeError as e:
+            if "unhashable" in str(e):
+                # the code under test hashes the name before classifying it: it cannot be
+                # executed on a symbolic string; counted undecided, part B has to decide
+                ex.stats.undecided += 1
+                return None
+            raise
+
+    def h2(ex):
         name = SymStr(z3.String("name"))
         ex.stats.obligations += 0
         if which == "is_state_variable":
@@ -176,8 +187,16 @@ def judge_set(target, names, reserved):
         nm = F.FortranNameManager()
     first = {}
     try:
-        for n in names:
-            first[n] = lookup(nm, n)
+        if target == "python" and len(names) >= 2:
+            # an earlier phase function used some of the names: locals are reset between phase functions
+            for n in names[:len(names) // 2]:
+                lookup(nm, n)
+            nm.clear_locals()
+            for n in reversed(names):
+                first[n] = lookup(nm, n)
+        else:
+            for n in names:
+                first[n] = lookup(nm, n)
         for n in reversed(names):
             again = lookup(nm, n)
             if again != first[n]:
